@@ -466,13 +466,19 @@ func c12Numbers(w *W) {
 }
 
 func c12ArrayAccessors(pj *simdjson.ParsedJson, d *ref.Node) (what, fp string) {
+	return c12ArrayAccessorsAt(pj, vpath{0}, d)
+}
+
+// c12ArrayAccessorsAt: the array at path base (which denotes d) read element-wise and
+// through the bulk accessors.
+func c12ArrayAccessorsAt(pj *simdjson.ParsedJson, base vpath, d *ref.Node) (what, fp string) {
 	defer func() {
 		if r := recover(); r != nil {
 			what, fp = fmt.Sprintf("PANIC: %v", r), "panic"
 		}
 	}()
 	getArr := func() *simdjson.Array {
-		it, err := navigate(pj, vpath{0}, 0)
+		it, err := navigate(pj, base, 0)
 		if err != nil {
 			panic(err)
 		}
@@ -487,7 +493,7 @@ func c12ArrayAccessors(pj *simdjson.ParsedJson, d *ref.Node) (what, fp string) {
 		if !isNum(e) {
 			continue
 		}
-		it, err := navigate(pj, vpath{0, i}, 0)
+		it, err := navigate(pj, append(append(vpath(nil), base...), i), 0)
 		if err != nil {
 			return err.Error(), "navigate"
 		}
